@@ -295,9 +295,13 @@ def matchfile_from_alignment(
 
             duration_symb = Fraction(duration_divs, dpq * 4)
 
-            beat = int((onset_divs - msd) // dpq)
+            # beats are counted in units of the time signature's denominator
+            divs_per_beat = Fraction(4 * dpq, int(ts_den))
+            beat = int((onset_divs - msd) // divs_per_beat)
 
-            moffset_divs = Fraction(int(onset_divs - msd - beat * dpq), (dpq * 4))
+            moffset_divs = Fraction(
+                Fraction(int(onset_divs - msd)) - beat * divs_per_beat, (dpq * 4)
+            )
 
             if debug:
                 duration_beats = offset_beats - onset_beats
